@@ -136,11 +136,29 @@ def _hrank_p2(h: float) -> int:
     return H_RANK[h]
 
 
-def event(mode, op, post, *, sols=(), gs=(), n=0, rb=False, ntf=(), exc="") -> dict:
+class RecordingDict(dict):
+    """Stands in for CoverageArchive._covered: behaves as the dict it is, and logs every
+    assignment archive[goal] = solution (observation only)."""
+
+    def __init__(self, *args):
+        super().__init__(*args)
+        self.log: list = []
+
+    def __setitem__(self, key, value):
+        self.log.append((key, value))
+        super().__setitem__(key, value)
+
+
+def proj_steps(log, goals, ident) -> list[dict]:
+    idx = {g: i for i, g in goals}
+    return [{"g": idx[k], "sol": proj_sol(v, goals, ident)} for k, v in log]
+
+
+def event(mode, op, post, *, sols=(), gs=(), n=0, rb=False, ntf=(), exc="", steps=()) -> dict:
     """One public call: arguments, return value, callbacks fired, archive projected afterwards
     (the view before the call is the `post` of the previous event)."""
     return {"mode": mode, "op": op, "sols": list(sols), "gs": list(gs), "n": n,
-            "post": post, "rb": bool(rb), "ntf": list(ntf), "exc": exc}
+            "post": post, "rb": bool(rb), "ntf": list(ntf), "exc": exc, "steps": list(steps)}
 
 
 def replay(beh: dict) -> dict:
@@ -165,6 +183,7 @@ def replay(beh: dict) -> dict:
     if mode == "cov":
         a = arch.CoverageArchive(OrderedSet(fns[g - 1] for g in init["objs"]))
         a.add_on_target_covered(lambda t: notified.append(t.g))
+        a._covered = RecordingDict(a._covered)
         proj = lambda: proj_cov(a, goals, sol_id)  # noqa: E731
     elif mode == "mio":
         a = arch.MIOArchive(OrderedSet(fns), init["cap"])
@@ -180,6 +199,8 @@ def replay(beh: dict) -> dict:
         offered = act["offered"]
         chroms = [obj(s) for s in offered]
         del notified[:]
+        log = a._covered.log if mode == "cov" else []
+        del log[:]
         rb, exc = False, ""
         try:
             if op in ("update", "mio_update"):
@@ -205,7 +226,7 @@ def replay(beh: dict) -> dict:
         except (AssertionError, KeyError, IndexError, AttributeError, TypeError) as ex:
             exc = type(ex).__name__
         events.append(event(mode, op, proj(), sols=offered, gs=act["gs"], n=act["n"], rb=rb,
-                            ntf=notified, exc=exc))
+                            ntf=notified, exc=exc, steps=proj_steps(log, goals, sol_id)))
     return {"ev": events}
 
 
@@ -235,6 +256,10 @@ class Recorder:
         self.archive.add_on_target_covered(lambda t: self.notified.append(self.idx[t]))
         self._depth = 0
         self._last: dict | None = None
+        self._log: list = []
+        if not self.is_mio:
+            self.archive._covered = RecordingDict(self.archive._covered)
+            self._log = self.archive._covered.log
 
     # identities: the i-th distinct chromosome object seen gets id i
     def ident(self, ch) -> int:
@@ -245,15 +270,14 @@ class Recorder:
         return self._ids[k]
 
     @staticmethod
-    def hrank(h: float) -> int:
-        """Monotone embedding of h into the integers: 1.0 -> HOne, 0.0 -> 0, else 1 + floor(h*9e5)
-        (two h values closer than ~1e-6 may share a rank; `Follows` would at worst report that
-        as drift, the C13 clauses only distinguish h = 1.0)."""
+    def hrank(h: float):
+        """During the run h values are kept as floats (1.0 -> HOne, 0.0 -> 0); trace() replaces
+        them by their dense rank among all h values of the run (order-preserving, exact)."""
         if h == 1.0:
             return HONE
         if h == 0.0:
             return 0
-        return 1 + int(h * 900000)
+        return float(h)
 
     def project(self) -> dict:
         if self.is_mio:
@@ -313,11 +337,13 @@ class Recorder:
                     if pre != rec._last:
                         rec._emit("observe", pre)
                     del rec.notified[:]
+                    del rec._log[:]
                     result = orig(*args, **kwargs)
                     post = rec.project()
                     if rec.is_mio and "sols" in extra:
                         rec._mio_ids(extra["sols"], pre, post)
-                    rec._emit(op, post, rb=bool(result), ntf=rec.notified, **extra)
+                    rec._emit(op, post, rb=bool(result), ntf=rec.notified,
+                              steps=proj_steps(rec._log, rec.goals, rec.ident), **extra)
                     return result
                 finally:
                     rec._depth -= 1
@@ -372,7 +398,18 @@ class Recorder:
         return [i for i, g in self.goals if c.get_is_covered(g)]
 
     def trace(self) -> dict:
-        return {"ev": self.events}
+        hs: set[float] = set()
+
+        def walk(x, fn):
+            if isinstance(x, dict):
+                return {k: walk(v, fn) for k, v in x.items()}
+            if isinstance(x, list):
+                return [walk(v, fn) for v in x]
+            return fn(x)
+
+        walk(self.events, lambda x: hs.add(x) if isinstance(x, float) else None)
+        rank = {h: i + 1 for i, h in enumerate(sorted(hs))}
+        return {"ev": walk(self.events, lambda x: rank[x] if isinstance(x, float) else x)}
 
 
 assert math.isclose(1.0 - arch.normalise(FITVAL[2]), 0.5) and 1.0 - arch.normalise(FITVAL[1]) == 0.25
